@@ -511,4 +511,303 @@ theorem cgLoop_stopped (n : Nat) (A : Nat → Nat → ℝ) (M : Option (Nat → 
       rw [if_neg hlt] at h2
       exact ih _ rfl h2
 
+/-! ## `norm`, `anyNonzero` -/
+
+theorem norm_eq (n : Nat) (v : Nat → ℝ) : norm n v = √(∑ i ∈ range n, v i * v i) := by
+  unfold norm; rw [sqrt_real, dot_eq]
+
+theorem norm_congr (n : Nat) (u v : Nat → ℝ) (h : ∀ i, i < n → u i = v i) : norm n u = norm n v := by
+  rw [norm_eq, norm_eq]
+  congr 1
+  exact sum_congr rfl fun i hi => by rw [h i (mem_range.mp hi)]
+
+theorem sumsq_nonneg (n : Nat) (v : Nat → ℝ) : 0 ≤ ∑ i ∈ range n, v i * v i :=
+  sum_nonneg fun i _ => mul_self_nonneg (v i)
+
+/-- `‖v‖ = 0` (i.e. not `0 < ‖v‖`) iff `v` vanishes on the indices `< n` -/
+theorem norm_pos_iff (n : Nat) (v : Nat → ℝ) : 0 < norm n v ↔ ∃ i, i < n ∧ v i ≠ 0 := by
+  rw [norm_eq, Real.sqrt_pos]
+  constructor
+  · intro h
+    by_contra hc
+    push Not at hc
+    have : ∑ i ∈ range n, v i * v i = 0 := sum_eq_zero fun i hi => by rw [hc i (mem_range.mp hi)]; ring
+    linarith
+  · rintro ⟨i, hi, hvi⟩
+    have h1 : 0 < v i * v i := mul_self_pos.mpr hvi
+    have h2 : v i * v i ≤ ∑ j ∈ range n, v j * v j :=
+      single_le_sum (f := fun j => v j * v j) (fun j _ => mul_self_nonneg (v j)) (mem_range.mpr hi)
+    linarith
+
+theorem norm_zero_of (n : Nat) (v : Nat → ℝ) (h : ∀ i, i < n → v i = 0) : norm n v = 0 := by
+  rw [norm_eq]
+  have : ∑ i ∈ range n, v i * v i = 0 := sum_eq_zero fun i hi => by rw [h i (mem_range.mp hi)]; ring
+  rw [this, Real.sqrt_zero]
+
+theorem anyNonzero_false (n : Nat) (x : Nat → ℝ) (h : anyNonzero n x = false) : ∀ i, i < n → x i = 0 := by
+  intro i hi
+  unfold anyNonzero at h
+  rw [List.any_eq_false] at h
+  have := h i (List.mem_range.mpr hi)
+  simp only [lt_real, k_real, Nat.cast_zero, Bool.or_eq_true, decide_eq_true_eq, not_or, not_lt] at this
+  linarith [this.1, this.2]
+
+/-! ## `CG.forward` -/
+
+theorem cgForward_pos (n : Nat) (tol : ℝ) (maxiter : Option Nat) (A : Nat → Nat → ℝ) (b : Nat → ℝ)
+    (x0 : Option (Nat → ℝ)) (M : Option (Nat → Nat → ℝ)) (hb : 0 < norm n b) :
+    cgForward n tol maxiter A b x0 M = cgLoop n A M (tol * norm n b) (cgBudget n maxiter) (cgInit n A b x0) := by
+  have hc : Scalar.lt (k 0) (norm n b) = true := by
+    simp only [lt_real, k_real, Nat.cast_zero, decide_eq_true_eq]; exact hb
+  unfold cgForward
+  rw [if_pos hc]
+
+theorem cgForward_zero' (n : Nat) (tol : ℝ) (maxiter : Option Nat) (A : Nat → Nat → ℝ) (b : Nat → ℝ)
+    (x0 : Option (Nat → ℝ)) (M : Option (Nat → Nat → ℝ)) (hb : ¬ 0 < norm n b) :
+    cgForward n tol maxiter A b x0 M =
+      { x := tab n b, r := tab n b, p := tab n fun _ => k 0, rhoPrev := k 0, iter := 0, stopped := true } := by
+  have hc : ¬ (Scalar.lt (k 0) (norm n b) = true) := by
+    simp only [lt_real, k_real, Nat.cast_zero, decide_eq_true_eq]; exact hb
+  unfold cgForward
+  rw [if_neg hc]
+
+theorem cgInit_resid (n : Nat) (A : Nat → Nat → ℝ) (b : Nat → ℝ) (x0 : Option (Nat → ℝ)) :
+    ResidOK n A b (cgInit n A b x0) := by
+  intro i hi
+  have key : ∀ x : Tab ℝ, (if anyNonzero n x.get = true then tab n (fun i => b i - matVec n A x.get i) else tab n b).get i
+      = b i - ∑ j ∈ range n, A i j * x.get j := by
+    intro x
+    by_cases hany : anyNonzero n x.get = true
+    · rw [if_pos hany, tab_get_lt _ hi, matVec_eq]
+    · rw [if_neg hany]
+      have hz := anyNonzero_false n x.get (by simpa using hany)
+      rw [tab_get_lt _ hi]
+      have : ∑ j ∈ range n, A i j * x.get j = 0 :=
+        sum_eq_zero fun j hj => by rw [hz j (mem_range.mp hj)]; ring
+      rw [this]; ring
+  unfold cgInit
+  exact key _
+
+/-- **Residual invariant of `CG.forward`**: whatever is returned, the recurrence residual carried by the loop is
+the true residual `b - A x` of the returned `x`. -/
+theorem cgForward_resid (n : Nat) (tol : ℝ) (maxiter : Option Nat) (A : Nat → Nat → ℝ) (b : Nat → ℝ)
+    (x0 : Option (Nat → ℝ)) (M : Option (Nat → Nat → ℝ)) :
+    ResidOK n A b (cgForward n tol maxiter A b x0 M) := by
+  by_cases hb : 0 < norm n b
+  · rw [cgForward_pos _ _ _ _ _ _ _ hb]
+    exact cgLoop_resid n A M b _ _ _ (cgInit_resid n A b x0)
+  · rw [cgForward_zero' _ _ _ _ _ _ _ hb]
+    have hz : ∀ i, i < n → b i = 0 := by
+      intro i hi
+      by_contra hne
+      exact hb ((norm_pos_iff n b).mpr ⟨i, hi, hne⟩)
+    intro i hi
+    simp only []
+    rw [tab_get_lt _ hi]
+    have : ∑ j ∈ range n, A i j * (tab n b).get j = 0 :=
+      sum_eq_zero fun j hj => by rw [tab_get_lt _ (mem_range.mp hj), hz j (mem_range.mp hj)]; ring
+    rw [this]; ring
+
+theorem cgForward_iter_le (n : Nat) (tol : ℝ) (maxiter : Option Nat) (A : Nat → Nat → ℝ) (b : Nat → ℝ)
+    (x0 : Option (Nat → ℝ)) (M : Option (Nat → Nat → ℝ)) :
+    (cgForward n tol maxiter A b x0 M).iter ≤ cgBudget n maxiter := by
+  by_cases hb : 0 < norm n b
+  · rw [cgForward_pos _ _ _ _ _ _ _ hb]
+    have := cgLoop_iter_le n A M (tol * norm n b) (cgBudget n maxiter) (cgInit n A b x0)
+    simpa [cgInit] using this
+  · rw [cgForward_zero' _ _ _ _ _ _ _ hb]; simp
+
+/-- `b = 0 ↦ 0`: the right-hand side itself is returned, no pass is made, whatever the initial guess -/
+theorem cgForward_zero (n : Nat) (tol : ℝ) (maxiter : Option Nat) (A : Nat → Nat → ℝ) (b : Nat → ℝ)
+    (x0 : Option (Nat → ℝ)) (M : Option (Nat → Nat → ℝ)) (hb : ∀ i, i < n → b i = 0) :
+    (∀ i, (cgForward n tol maxiter A b x0 M).x.get i = 0) ∧ (cgForward n tol maxiter A b x0 M).iter = 0 := by
+  have h0 : ¬ 0 < norm n b := by rw [norm_zero_of n b hb]; exact lt_irrefl 0
+  rw [cgForward_zero' _ _ _ _ _ _ _ h0]
+  refine ⟨fun i => ?_, rfl⟩
+  simp only []
+  rw [tab_get]
+  by_cases hi : i < n
+  · rw [if_pos hi, hb i hi]
+  · rw [if_neg hi]
+
+/-- the early return certifies the TRUE residual: `‖b - A x‖ < tol ‖b‖` -/
+theorem cgForward_certified (n : Nat) (tol : ℝ) (maxiter : Option Nat) (A : Nat → Nat → ℝ) (b : Nat → ℝ)
+    (x0 : Option (Nat → ℝ)) (M : Option (Nat → Nat → ℝ)) (hb : ∃ i, i < n ∧ b i ≠ 0)
+    (hs : (cgForward n tol maxiter A b x0 M).stopped = true) :
+    norm n (fun i => b i - ∑ j ∈ range n, A i j * (cgForward n tol maxiter A b x0 M).x.get j) < tol * norm n b := by
+  have hres := cgForward_resid n tol maxiter A b x0 M
+  have hpos := (norm_pos_iff n b).mpr hb
+  rw [norm_congr n _ (cgForward n tol maxiter A b x0 M).r.get (fun i hi => (hres i hi).symm)]
+  rw [cgForward_pos _ _ _ _ _ _ _ hpos] at hs ⊢
+  exact cgLoop_stopped n A M _ _ _ rfl hs
+
+/-- only the lower triangle of `A` enters the notion of a Cholesky factor -/
+theorem IsChol.congr {n : Nat} {A A' L : Nat → Nat → ℝ} (h : IsChol n A L)
+    (hA : ∀ i j, i < n → j ≤ i → A i j = A' i j) : IsChol n A' L :=
+  ⟨h.upper, h.pos, fun i j hi hji => by rw [← hA i j hi hji]; exact h.prod i j hi hji⟩
+
+theorem chol_error_not_spd (A : Nat → Nat → ℝ) (n e : Nat) (h : chol A n = .error e) : ¬ IsSPD n A := by
+  intro hs
+  obtain ⟨L, hL⟩ := chol_complete A n hs
+  rw [hL] at h
+  cases h
+
+/-- `info` of a failed factorisation is the order of a leading block: `1 ≤ info ≤ n` -/
+theorem chol_error_range (A : Nat → Nat → ℝ) : ∀ n e, chol A n = .error e → 1 ≤ e ∧ e ≤ n := by
+  intro n
+  induction n with
+  | zero => intro e h; simp [chol] at h
+  | succ n ih =>
+    intro e h
+    rw [chol] at h
+    cases hc : chol A n with
+    | error e' =>
+      rw [hc] at h
+      simp only [Except.error.injEq] at h
+      subst h
+      have := ih e' hc
+      omega
+    | ok L =>
+      rw [hc] at h
+      simp only [] at h
+      split at h
+      · cases h
+      · simp only [Except.error.injEq] at h
+        omega
+
+/-- symmetric on the indices `< n` -/
+def IsSymm (n : Nat) (A : Nat → Nat → ℝ) : Prop := ∀ i j, i < n → j < n → A i j = A j i
+
+theorem isSymm_transpose {n : Nat} {A : Nat → Nat → ℝ} (h : IsSymm n A) : IsSymm n (transpose A) :=
+  fun i j hi hj => by unfold transpose; exact h j i hj hi
+
+/-- the solution of an SPD system is unique -/
+theorem spd_unique (n : Nat) (A : Nat → Nat → ℝ) (h : IsSPD n A) (x y : Nat → ℝ)
+    (hxy : ∀ i, i < n → ∑ j ∈ range n, A i j * x j = ∑ j ∈ range n, A i j * y j) :
+    ∀ i, i < n → x i = y i := by
+  by_contra hc
+  push Not at hc
+  obtain ⟨i0, hi0, hne⟩ := hc
+  have hp := h.pos (fun i => x i - y i) ⟨i0, hi0, sub_ne_zero.mpr hne⟩
+  have : ∑ i ∈ range n, ∑ j ∈ range n, (x i - y i) * A i j * (x j - y j) = 0 := by
+    apply sum_eq_zero
+    intro i hi
+    have e : ∑ j ∈ range n, (x i - y i) * A i j * (x j - y j)
+        = (x i - y i) * (∑ j ∈ range n, A i j * x j - ∑ j ∈ range n, A i j * y j) := by
+      rw [← sum_sub_distrib, mul_sum]
+      exact sum_congr rfl fun j _ => by ring
+    rw [e, hxy i (mem_range.mp hi)]; ring
+  linarith
+
+/-! ## the stand-in kernels satisfy the contract of `cholesky_ex` / `cholesky_solve` -/
+
+/-- contract of the pair of kernels used by `Cholesky.forward` on symmetric input:
+`info = 0` exactly on positive definite matrices, and then `cholesky_solve` with the returned factor solves
+`A x = b`. -/
+structure CholContract (n : Nat) (cholEx : (Nat → Nat → ℝ) → (Nat → Nat → ℝ) × Nat)
+    (solveK : (Nat → Nat → ℝ) → (Nat → ℝ) → Tab ℝ) : Prop where
+  info_iff : ∀ A, IsSymm n A → ((cholEx A).2 = 0 ↔ IsSPD n A)
+  solves : ∀ A b, IsSymm n A → (cholEx A).2 = 0 →
+    ∀ i, i < n → ∑ j ∈ range n, A i j * (solveK (cholEx A).1 b).get j = b i
+
+theorem transpose_transpose (F : Nat → Nat → ℝ) : transpose (transpose F) = F := rfl
+
+theorem isSPD_transpose {n : Nat} {A : Nat → Nat → ℝ} (hs : IsSymm n A) : IsSPD n (transpose A) ↔ IsSPD n A := by
+  have key : ∀ B : Nat → Nat → ℝ, IsSymm n B → IsSPD n B → IsSPD n (transpose B) := by
+    intro B hB h
+    refine ⟨isSymm_transpose hB, fun v hv => ?_⟩
+    have := h.pos v hv
+    have e : ∑ i ∈ range n, ∑ j ∈ range n, v i * transpose B i j * v j
+        = ∑ i ∈ range n, ∑ j ∈ range n, v i * B i j * v j := by
+      apply sum_congr rfl; intro i hi
+      apply sum_congr rfl; intro j hj
+      unfold transpose
+      rw [hB j i (mem_range.mp hj) (mem_range.mp hi)]
+    rw [e]; exact this
+  constructor
+  · intro h
+    have := key (transpose A) (isSymm_transpose hs) h
+    rwa [transpose_transpose] at this
+  · exact key A hs
+
+theorem cholExStd_contract (n : Nat) (upper : Bool) :
+    CholContract n (cholExStd n upper) (cholSolveStd n upper) := by
+  constructor
+  · intro A hs
+    unfold cholExStd
+    cases upper with
+    | false =>
+      simp only [Bool.false_eq_true, if_false]
+      cases hc : chol A n with
+      | error e =>
+        simp only []
+        have he := chol_error_range A n e hc
+        constructor
+        · intro h; omega
+        · intro h; exact absurd h (chol_error_not_spd A n e hc)
+      | ok L =>
+        simp only [true_iff]
+        exact (chol_sound A n L hc).spd hs
+    | true =>
+      simp only [if_true]
+      cases hc : chol (transpose A) n with
+      | error e =>
+        simp only []
+        have he := chol_error_range _ n e hc
+        constructor
+        · intro h; omega
+        · intro h
+          exact absurd ((isSPD_transpose hs).mpr h) (chol_error_not_spd _ n e hc)
+      | ok L =>
+        simp only [true_iff]
+        exact (isSPD_transpose hs).mp ((chol_sound _ n L hc).spd (isSymm_transpose hs))
+  · intro A b hs hinfo i hi
+    unfold cholExStd cholSolveStd at *
+    cases upper with
+    | false =>
+      simp only [Bool.false_eq_true, if_false] at hinfo ⊢
+      cases hc : chol A n with
+      | error e =>
+        rw [hc] at hinfo
+        have he := chol_error_range A n e hc
+        simp only [] at hinfo
+        omega
+      | ok L =>
+        simp only []
+        exact cholSolve_correct n A L.get b (chol_sound A n L hc) hs i hi
+    | true =>
+      simp only [if_true] at hinfo ⊢
+      cases hc : chol (transpose A) n with
+      | error e =>
+        rw [hc] at hinfo
+        have he := chol_error_range _ n e hc
+        simp only [] at hinfo
+        omega
+      | ok L =>
+        simp only [transpose_transpose]
+        have hch : IsChol n A L.get := (chol_sound _ n L hc).congr (fun i j hi hji => by
+          unfold transpose; exact hs j i (by omega) hi)
+        exact cholSolve_correct n A L.get b hch hs i hi
+
+/-! ## `Cholesky.forward` under the kernel contract -/
+
+theorem choleskyForward_ok_iff (cholEx : (Nat → Nat → ℝ) → (Nat → Nat → ℝ) × Nat)
+    (solveK : (Nat → Nat → ℝ) → (Nat → ℝ) → Tab ℝ) (A : Nat → Nat → ℝ) (b : Nat → ℝ) :
+    (∃ x, choleskyForward cholEx solveK A b = .ok x) ↔ (cholEx A).2 = 0 := by
+  unfold choleskyForward
+  simp only []
+  by_cases h : (cholEx A).2 = 0
+  · simp [h]
+  · simp [h]
+
+theorem choleskyForward_ok (cholEx : (Nat → Nat → ℝ) → (Nat → Nat → ℝ) × Nat)
+    (solveK : (Nat → Nat → ℝ) → (Nat → ℝ) → Tab ℝ) (A : Nat → Nat → ℝ) (b : Nat → ℝ) (x : Tab ℝ)
+    (h : choleskyForward cholEx solveK A b = .ok x) : (cholEx A).2 = 0 ∧ x = solveK (cholEx A).1 b := by
+  unfold choleskyForward at h
+  simp only [] at h
+  by_cases h0 : (cholEx A).2 = 0
+  · simp only [h0, ne_eq, not_true_eq_false, if_false, Except.ok.injEq] at h
+    exact ⟨h0, h.symm⟩
+  · simp [h0] at h
+
 end PP.LinSolve
